@@ -89,11 +89,10 @@ func targetMatcher(c *core.Ctx, spec string) func(ssa.Instruction) bool {
 
 func fieldKey(baseType, field string) string {
 	t := strings.TrimPrefix(baseType, "*")
-	if i := strings.LastIndex(t, "."); i >= 0 {
-		t = t[i+1:]
-	}
 	if strings.HasPrefix(t, "struct{") {
 		t = "struct"
+	} else if i := strings.LastIndex(t, "."); i >= 0 {
+		t = t[i+1:]
 	}
 	return t + "." + field
 }
